@@ -98,10 +98,40 @@ def run(ctx):
             ctx.prop_fail("wakeorder: the order in which simultaneously ready tasks resume differs between processes / prior instance lifetimes: %s" % sorted(vals | same_tasks)[:3],
                           {"tasks": t, "harness_line": l})
         distinct.add(outs[0][i])
+    # ---- resource limits are part of the outcome: how deep a recursion through native callbacks gets before its RangeError must not depend on
+    # where the operating system placed the stack (fresh processes with environments of different sizes shift it byte by byte)
+    import subprocess, os
+    shapes = ["[1].map(rec)", "[1].forEach(rec)", "[2, 1].sort((a, b) => { rec(); return a - b; })", "'x'.replace(/x/, () => { rec(); return ''; })", "({get g() { return rec(); }}).g",
+              "String({toString() { rec(); return ''; }})", "[1].reduce((a) => rec(), 0)", "JSON.stringify({toJSON() { return rec(); }})", "new Map([[1, 1]]).forEach(rec)", "Array.from([1], rec)"]
+    probe = ("const out: string[] = [];\n" + "\n".join(
+        "for (const lead of [0, 1, 2, 3, 5, 8]) { let d = 0; const rec = (): any => { d++; return %s; }; const go = (k: number): any => k > 0 ? [0].map(() => go(k - 1)) : rec(); "
+        "try { go(lead); out.push('%d:end'); } catch (e) { out.push('%d:' + lead + ':' + d + ':' + (e as any).name); } }" % (sh, i, i) for i, sh in enumerate(shapes))
+        + "\nout.join(' ')")
+    pline = json.dumps({"variant": "solo", "progs": [probe]}) + "\n" + json.dumps({"variant": "threads", "progs": [probe, probe]}) + "\n"
+    pouts = []
+    for k in range(12 if ctx.tier == "quick" else 48):
+        env = dict(common.env_offline(), TV_STACK_PAD="p" * (k * 353 % 4096 + k))
+        try:
+            pr = subprocess.run([common.HARNESS_BIN, "iso"], input=pline, stdout=subprocess.PIPE, stderr=subprocess.PIPE, text=True, env=env, timeout=600)
+            pouts.append(pr.stdout.strip() if pr.returncode == 0 else "CRASH(rc=%s)" % pr.returncode)
+        except subprocess.TimeoutExpired:
+            pouts.append("TIMEOUT")
+        ctx.cov["evaluations"] += 1
+    if any(o.startswith(("CRASH", "TIMEOUT")) for o in pouts):
+        ctx.prop_fail("crash: the recursion-limit probe did not run (%s)" % [o for o in pouts if o.startswith(("CRASH", "TIMEOUT"))][0], {"program": probe[:1500]})
+    elif len(set(pouts)) > 1:
+        a, b = sorted(set(pouts))[:2]
+        ctx.prop_fail("process: the depth at which recursion through native callbacks is cut off differs between processes whose stacks start at different addresses",
+                      {"program": probe[:2500], "one_process": a[:1200], "other_process": b[:1200], "distinct_outputs": len(set(pouts)), "processes": len(pouts)})
+    else:
+        lines_ = pouts[0].split("\n")
+        distinct.add(pouts[0][:200])
+        ctx.notes.append("recursion-limit probe: %d processes, one output (%s...)" % (len(pouts), pouts[0][:120]))
     ctx.cov["distinct_nontrivial"] = len(distinct)
     ctx.cov["rule"] = ("groups of 2-3 generated programs (scripts, order-issuing scripts, 1/5 failing) run solo, solo after 1-6 other instance lifetimes (created, run, failed, dropped), one thread each, "
                        "and interleaved step-by-step under random schedules of 10..4000 steps; every variant twice in different processes; transcripts (step index of every event, order ids, result, console) "
                        "must equal the solo transcript; plus 2..20 top-level tasks on one interpreter woken by a single host resolve, across processes and prior lifetimes. "
+                       "plus a recursion-limit probe (10 native-callback shapes x 6 lead-in depths: the depth reached before the RangeError) in 12 (thorough: 48) fresh processes whose environments differ in size, on the main thread and on spawned threads. "
                        "distinct_nontrivial = distinct solo transcripts")
     ctx.sample({"programs": [p[:200] for p in groups[0]], "solo": base.get(0, "")[:300]})
     ctx.sample({"multitask": mt[2], "order": outs[0][2]})
